@@ -304,7 +304,9 @@ Proof.
   rewrite Hkey2, take_drop_n.
   match goal with |- context [advance_ridx ?f ?i] => set (it1 := i) end.
   pose proof (bf_inv _ _ _ Hb) as (I1 & I2 & I3 & I4 & I5 & I6).
-  assert (Hst1 : statics it1) by (unfold statics, it1; cbn; rewrite S3 in *; auto).
+  assert (Hst1 : statics it1).
+  { unfold statics, it1. cbn [bi_data bi_empty bi_restarts bi_num bi_rarr bi_status].
+    repeat split; try assumption; reflexivity. }
   assert (Hinv1 : binv1 it1).
   { unfold binv1, it1.
     cbn [bi_data bi_restarts bi_num bi_rarr bi_ridx bi_vrest bi_voff bi_vlen bi_next].
